@@ -1,6 +1,1801 @@
-//! C09 — not built yet.
+//! C09 — NSEC3 denial of existence (`hickory_net::dnssec::nsec3::verify_nsec3` through the hook).
+//!
+//! Case line (see lean/HickoryVerif/Drv/C09.lean):
+//!   v <qname> <qtype> <soa|-> <rcode> <wl|-> <soft> <hard> <n> {owner next optout iter salt types}*n <m> {name hash}*m
+//! The hash table at the end is *recomputed* here with the real `Nsec3HashAlgorithm::hash` before the
+//! case is recorded, so corpus lines may end in `0`.
+//!
+//! Oracle on the implementation (independent of the Lean model):
+//!  * iteration clauses, parameter equality, zone membership;
+//!  * semantic soundness: when the implementation says Secure, enumerate the zone views over a small
+//!    name universe that are consistent with the given NSEC3 records under the real hash order
+//!    (every record is a link of the hash ring; names hashing strictly inside a link do not exist —
+//!    inside an opt-out link they may be insecure delegations); if some consistent view falsifies
+//!    what the response claims, that is a failure;
+//!  * completeness end to end: negative / wildcard responses of an NSEC3-signed `InMemoryZoneHandler`
+//!    must be accepted.
+use std::collections::{BTreeMap, BTreeSet};
+
+use hickory_net::dnssec::verif_hooks::verify_nsec3;
+use hickory_proto::dnssec::rdata::{DNSSECRData, NSEC3, RRSIG, SigInput};
+use hickory_proto::dnssec::{Algorithm, Nsec3HashAlgorithm, Proof};
+use hickory_proto::op::{Query, ResponseCode};
+use hickory_proto::rr::rdata::A;
+use hickory_proto::rr::{Name, RData, Record, RecordType, SerialNumber};
+
 use crate::common::*;
 
-pub fn run(_o: &Opts, rec: &mut Recorder) {
-    rec.rule = "stub".into();
+pub const T_A: u16 = 1;
+pub const T_NS: u16 = 2;
+pub const T_CNAME: u16 = 5;
+pub const T_SOA: u16 = 6;
+pub const T_TXT: u16 = 16;
+pub const T_DNAME: u16 = 39;
+pub const T_DS: u16 = 43;
+pub const T_RRSIG: u16 = 46;
+pub const T_NSEC3PARAM: u16 = 51;
+
+
+#[derive(Clone, Debug, PartialEq)]
+pub struct RecIn {
+    pub owner: Name,
+    pub next: Vec<u8>,
+    pub opt_out: bool,
+    pub iterations: u16,
+    pub salt: Vec<u8>,
+    pub types: Vec<u16>,
+}
+
+#[derive(Clone, Debug)]
+pub struct Case {
+    pub q: Name,
+    pub qtype: u16,
+    pub soa: Option<Name>,
+    pub rcode: u16,
+    pub wl: Option<u8>,
+    pub soft: u16,
+    pub hard: u16,
+    pub recs: Vec<RecIn>,
+}
+
+// ------------------------------------------------------------------ small helpers
+
+pub fn nsec3_hash(salt: &[u8], name: &Name, iterations: u16) -> Vec<u8> {
+    Nsec3HashAlgorithm::SHA1.hash(salt, name, iterations).unwrap().as_ref().to_vec()
+}
+
+/// base32hex, lower case, no padding — written here independently of `data_encoding`
+pub fn b32(data: &[u8]) -> Vec<u8> {
+    const AL: &[u8; 32] = b"0123456789abcdefghijklmnopqrstuv";
+    let mut out = vec![];
+    let (mut acc, mut bits) = (0u32, 0u32);
+    for &b in data {
+        acc = (acc << 8) | b as u32;
+        bits += 8;
+        while bits >= 5 {
+            out.push(AL[((acc >> (bits - 5)) & 31) as usize]);
+            bits -= 5;
+        }
+    }
+    if bits > 0 {
+        out.push(AL[((acc << (5 - bits)) & 31) as usize]);
+    }
+    out
+}
+
+fn lower(l: &[u8]) -> Vec<u8> {
+    l.to_ascii_lowercase()
+}
+
+type Lbls = Vec<Vec<u8>>;
+
+fn lbls(n: &Name) -> Lbls {
+    n.iter().map(lower).collect()
+}
+
+fn name_of(l: &Lbls) -> Name {
+    Name::from_labels(l.iter().map(|x| &x[..])).unwrap()
+}
+
+fn show_lbls(l: &Lbls) -> String {
+    if l.is_empty() {
+        return ".".into();
+    }
+    l.iter().map(|x| String::from_utf8_lossy(x).to_string()).collect::<Vec<_>>().join(".") + "."
+}
+
+fn types_tok(t: &[u16]) -> String {
+    if t.is_empty() { "-".into() } else { t.iter().map(|x| x.to_string()).collect::<Vec<_>>().join(",") }
+}
+
+fn opt_tok<T: ToString>(x: &Option<T>) -> String {
+    x.as_ref().map(|v| v.to_string()).unwrap_or_else(|| "-".into())
+}
+
+/// every name the model may hash: the ancestors-or-self of the query name and their wildcards
+fn table_names(q: &Name) -> Vec<Name> {
+    let mut out: Vec<Name> = vec![];
+    let mut cur = q.to_lowercase();
+    cur.set_fqdn(true);
+    loop {
+        if !out.contains(&cur) {
+            out.push(cur.clone());
+        }
+        if let Ok(w) = cur.prepend_label("*") {
+            if !out.contains(&w) {
+                out.push(w);
+            }
+        }
+        if cur.is_root() {
+            break;
+        }
+        cur = cur.base_name();
+    }
+    out
+}
+
+pub fn format_case(c: &Case) -> String {
+    let mut s = format!(
+        "v {} {} {} {} {} {} {} {}",
+        name_tok(&c.q),
+        c.qtype,
+        c.soa.as_ref().map(name_tok).unwrap_or_else(|| "-".into()),
+        c.rcode,
+        opt_tok(&c.wl),
+        c.soft,
+        c.hard,
+        c.recs.len()
+    );
+    for r in &c.recs {
+        s += &format!(
+            " {} {} {} {} {} {}",
+            name_tok(&r.owner),
+            hex(&r.next),
+            b(r.opt_out),
+            r.iterations,
+            hex(&r.salt),
+            types_tok(&r.types)
+        );
+    }
+    // the hash oracle (only when the code gets as far as hashing)
+    let mut tbl = vec![];
+    if let Some(f) = c.recs.first() {
+        if f.iterations <= c.soft && f.iterations <= c.hard {
+            for n in table_names(&c.q) {
+                tbl.push((name_tok(&n), hex(&nsec3_hash(&f.salt, &n, f.iterations))));
+            }
+        }
+    }
+    s += &format!(" {}", tbl.len());
+    for (n, h) in tbl {
+        s += &format!(" {n} {h}");
+    }
+    s
+}
+
+pub fn parse_case(t: &[&str]) -> Option<Case> {
+    if t.len() < 9 || t[0] != "v" {
+        return None;
+    }
+    let q = parse_name(t[1])?;
+    let qtype: u16 = t[2].parse().ok()?;
+    let soa = if t[3] == "-" { None } else { Some(parse_name(t[3])?) };
+    let rcode: u16 = t[4].parse().ok()?;
+    let wl = if t[5] == "-" { None } else { Some(t[5].parse::<u8>().ok()?) };
+    let soft: u16 = t[6].parse().ok()?;
+    let hard: u16 = t[7].parse().ok()?;
+    let n: usize = t[8].parse().ok()?;
+    let mut recs = vec![];
+    let mut i = 9;
+    for _ in 0..n {
+        if i + 6 > t.len() {
+            return None;
+        }
+        let types = if t[i + 5] == "-" {
+            vec![]
+        } else {
+            t[i + 5].split(',').map(|x| x.parse::<u16>().ok()).collect::<Option<Vec<_>>>()?
+        };
+        recs.push(RecIn {
+            owner: parse_name(t[i])?,
+            next: unhex(t[i + 1])?,
+            opt_out: t[i + 2] == "1",
+            iterations: t[i + 3].parse().ok()?,
+            salt: unhex(t[i + 4])?,
+            types,
+        });
+        i += 6;
+    }
+    Some(Case { q, qtype, soa, rcode, wl, soft, hard, recs })
+}
+
+fn proof_str(p: Proof) -> &'static str {
+    match p {
+        Proof::Secure => "secure",
+        Proof::Insecure => "insecure",
+        Proof::Bogus => "bogus",
+        Proof::Indeterminate => "indeterminate",
+    }
+}
+
+fn call_impl(c: &Case) -> Proof {
+    let query = Query::new(c.q.clone(), RecordType::from(c.qtype));
+    let datas: Vec<NSEC3> = c
+        .recs
+        .iter()
+        .map(|r| {
+            NSEC3::new(
+                Nsec3HashAlgorithm::SHA1,
+                r.opt_out,
+                r.iterations,
+                r.salt.clone(),
+                r.next.clone(),
+                r.types.iter().map(|t| RecordType::from(*t)),
+            )
+        })
+        .collect();
+    let pairs: Vec<(&Name, &NSEC3)> = c.recs.iter().map(|r| &r.owner).zip(datas.iter()).collect();
+    let mut answers = vec![];
+    if let Some(k) = c.wl {
+        answers.push(Record::from_rdata(c.q.clone(), 300, RData::A(A::new(192, 0, 2, 1))));
+        let input = SigInput {
+            type_covered: RecordType::from(c.qtype),
+            algorithm: Algorithm::ED25519,
+            num_labels: k,
+            original_ttl: 300,
+            sig_expiration: SerialNumber::new(0),
+            sig_inception: SerialNumber::new(0),
+            key_tag: 0,
+            signer_name: c.soa.clone().unwrap_or_else(Name::root),
+        };
+        answers.push(Record::from_rdata(
+            c.q.clone(),
+            300,
+            RData::DNSSEC(DNSSECRData::RRSIG(RRSIG::from_sig(input, vec![]))),
+        ));
+    }
+    let rc: ResponseCode = c.rcode.into();
+    verify_nsec3(&query, c.soa.as_ref(), rc, &answers, &pairs, c.soft, c.hard)
+}
+
+// ------------------------------------------------------------------ semantic oracle
+
+#[derive(Clone)]
+struct Link {
+    owner: Vec<u8>,
+    next: Vec<u8>,
+    opt_out: bool,
+}
+
+/// `h` lies strictly inside the link (owner, next) of the hash ring
+fn inside(o: &[u8], n: &[u8], h: &[u8]) -> bool {
+    if o < n { o < h && h < n } else { h > o || h < n }
+}
+
+type Zone = BTreeMap<Lbls, BTreeSet<u16>>;
+
+fn is_deleg(t: &BTreeSet<u16>) -> bool {
+    t.contains(&T_NS) && !t.contains(&T_SOA)
+}
+fn is_cut(t: &BTreeSet<u16>) -> bool {
+    is_deleg(t) || t.contains(&T_DNAME)
+}
+fn insecure_deleg(t: &BTreeSet<u16>) -> bool {
+    is_deleg(t) && !t.contains(&T_DS)
+}
+
+#[derive(Debug, PartialEq, Clone)]
+enum Kind {
+    Referral,
+    Answer,
+    NoData,
+    WildAnswer(usize),
+    WildNoData,
+    NxDomain,
+}
+
+fn suffix(q: &Lbls, k: usize) -> Lbls {
+    q[q.len() - k..].to_vec()
+}
+
+/// what an authoritative server for zone view `z` answers to (q, t) — RFC 1034 §4.3.2, 4592, 5155
+fn kind(z: &Zone, apex: &Lbls, q: &Lbls, t: u16) -> Kind {
+    for k in apex.len() + 1..q.len() {
+        if let Some(ts) = z.get(&suffix(q, k)) {
+            if is_cut(ts) {
+                return Kind::Referral;
+            }
+        }
+    }
+    if let Some(ts) = z.get(q) {
+        if q.len() > apex.len() && is_deleg(ts) && t != T_DS {
+            return Kind::Referral;
+        }
+        if ts.contains(&t) || ts.contains(&T_CNAME) {
+            return Kind::Answer;
+        }
+        return Kind::NoData;
+    }
+    let mut ce = apex.len();
+    for k in (apex.len()..q.len()).rev() {
+        if z.contains_key(&suffix(q, k)) {
+            ce = k;
+            break;
+        }
+    }
+    let ce_name = suffix(q, ce);
+    if ce > apex.len() && z.get(&ce_name).map(is_cut).unwrap_or(false) {
+        return Kind::Referral;
+    }
+    let mut w = vec![b"*".to_vec()];
+    w.extend(ce_name);
+    match z.get(&w) {
+        Some(ts) if ts.contains(&t) || ts.contains(&T_CNAME) => Kind::WildAnswer(ce),
+        Some(_) => Kind::WildNoData,
+        None => Kind::NxDomain,
+    }
+}
+
+/// what the accepted response asserts about the zone
+fn claim_holds(c: &Case, z: &Zone, apex: &Lbls, q: &Lbls) -> bool {
+    if c.rcode == 3 {
+        return kind(z, apex, q, c.qtype) == Kind::NxDomain;
+    }
+    match c.wl {
+        None => {
+            if c.qtype == T_DS {
+                // RFC 5155 §8.6: all that is claimed is "no DS RRset at QNAME"
+                !z.get(q).map(|t| t.contains(&T_DS)).unwrap_or(false)
+            } else {
+                matches!(kind(z, apex, q, c.qtype), Kind::NoData | Kind::WildNoData)
+            }
+        }
+        Some(k) => {
+            // RFC 5155 §8.8: QNAME and everything down to the next closer name do not exist.
+            // (That the wildcard's parent is in the zone and not below a cut is carried by the RRSIG.)
+            let k = k as usize;
+            !(k + 1..=q.len()).any(|j| z.contains_key(&suffix(q, j)))
+        }
+    }
+}
+
+enum Sem {
+    NoVerdict(&'static str),
+    Holds(usize),
+    Falsified(String, Zone),
+}
+
+fn universe(apex: &Lbls, q: &Lbls) -> Vec<Lbls> {
+    let mut u: BTreeSet<Lbls> = BTreeSet::new();
+    let alpha: [&[u8]; 3] = [b"a", b"b", b"*"];
+    let mut layer: Vec<Lbls> = vec![apex.clone()];
+    u.insert(apex.clone());
+    for _ in 0..3 {
+        let mut next = vec![];
+        for n in &layer {
+            for a in alpha {
+                let mut m = vec![a.to_vec()];
+                m.extend(n.clone());
+                if m.iter().map(|l| l.len() + 1).sum::<usize>() < 250 {
+                    u.insert(m.clone());
+                    next.push(m);
+                }
+            }
+        }
+        layer = next;
+    }
+    // a few host-style names so that hand-written corpus cases have an owner in the universe
+    for l in [&b"www"[..], b"mail", b"sub"] {
+        let mut m = vec![l.to_vec()];
+        m.extend(apex.clone());
+        u.insert(m);
+    }
+    for k in apex.len()..=q.len() {
+        let a = suffix(q, k);
+        let mut w = vec![b"*".to_vec()];
+        w.extend(a.clone());
+        u.insert(a);
+        if w.iter().map(|l| l.len() + 1).sum::<usize>() < 250 {
+            u.insert(w);
+        }
+    }
+    u.into_iter().collect()
+}
+
+fn consistent(z: &Zone, links: &[Link], hashes: &BTreeMap<Lbls, Vec<u8>>) -> bool {
+    for (n, ts) in z {
+        let h = &hashes[n];
+        for l in links {
+            if inside(&l.owner, &l.next, h) && !(l.opt_out && insecure_deleg(ts)) {
+                return false;
+            }
+        }
+    }
+    true
+}
+
+fn describe(z: &Zone) -> String {
+    z.iter().map(|(n, t)| format!("{}{{{}}}", show_lbls(n), types_tok(&t.iter().copied().collect::<Vec<_>>()))).collect::<Vec<_>>().join(" ")
+}
+
+fn semantic(c: &Case) -> Sem {
+    let Some(first) = c.recs.first() else { return Sem::NoVerdict("no-records") };
+    let apex_name = match &c.soa {
+        Some(s) => s.clone(),
+        None => first.owner.base_name(),
+    };
+    if !apex_name.is_fqdn() || !c.q.is_fqdn() || apex_name.is_root() {
+        return Sem::NoVerdict("not-fqdn-or-root");
+    }
+    let apex = lbls(&apex_name);
+    let q = lbls(&c.q);
+    if q.len() < apex.len() || suffix(&q, apex.len()) != apex {
+        return Sem::NoVerdict("query-outside-zone");
+    }
+    if q.len() - apex.len() > 4 {
+        return Sem::NoVerdict("query-too-deep");
+    }
+    if let Some(k) = c.wl {
+        // RRSIG labels ≥ QNAME labels: not a wildcard expansion, the response makes no NSEC3 claim the
+        // property defines; labels < apex labels: not an RRSIG of this zone
+        if c.rcode == 0 && (k >= c.q.num_labels() || (k as usize) < apex.len()) {
+            return Sem::NoVerdict("answer-rrsig-not-a-wildcard-expansion");
+        }
+    }
+    if c.recs.iter().any(|r| r.salt != first.salt || r.iterations != first.iterations) {
+        return Sem::NoVerdict("parameter-mismatch");
+    }
+    if first.iterations > 50 {
+        return Sem::NoVerdict("iterations-too-high-for-oracle");
+    }
+    let uni = universe(&apex, &q);
+    let mut hashes: BTreeMap<Lbls, Vec<u8>> = BTreeMap::new();
+    let mut by_label: BTreeMap<Vec<u8>, Lbls> = BTreeMap::new();
+    for n in &uni {
+        let h = nsec3_hash(&first.salt, &name_of(n), first.iterations);
+        by_label.insert(b32(&h), n.clone());
+        hashes.insert(n.clone(), h);
+    }
+    // forced names and links
+    let mut forced: Zone = BTreeMap::new();
+    let mut links = vec![];
+    for r in &c.recs {
+        let ol = lbls(&r.owner);
+        if ol.len() != apex.len() + 1 || ol[1..] != apex[..] {
+            return Sem::NoVerdict("record-outside-zone");
+        }
+        let Some(n) = by_label.get(&ol[0]) else { return Sem::NoVerdict("owner-not-a-universe-name") };
+        let ts: BTreeSet<u16> = r.types.iter().copied().collect();
+        if let Some(prev) = forced.get(n) {
+            if *prev != ts {
+                return Sem::NoVerdict("conflicting-records");
+            }
+        }
+        forced.insert(n.clone(), ts);
+        links.push(Link { owner: hashes[n].clone(), next: r.next.clone(), opt_out: r.opt_out });
+    }
+    // relevant free names: ancestors-or-self of q below the apex and the wildcards at q's ancestors
+    let mut rel: Vec<Lbls> = vec![];
+    for k in apex.len()..=q.len() {
+        let a = suffix(&q, k);
+        if k > apex.len() && !forced.contains_key(&a) && !rel.contains(&a) {
+            rel.push(a.clone());
+        }
+        if k < q.len() {
+            let mut w = vec![b"*".to_vec()];
+            w.extend(a);
+            if hashes.contains_key(&w) && !forced.contains_key(&w) && !rel.contains(&w) {
+                rel.push(w);
+            }
+        }
+    }
+    let other = if c.qtype == T_A { T_TXT } else { T_A };
+    // None = absent; Some(set) = present with these types (empty = empty non-terminal)
+    let menu: Vec<Option<Vec<u16>>> = vec![
+        None,
+        Some(vec![c.qtype]),
+        Some(vec![other]),
+        Some(vec![T_NS]),
+        Some(vec![T_NS, T_DS]),
+        Some(vec![T_CNAME]),
+        Some(vec![T_DNAME]),
+        Some(vec![]),
+    ];
+    // per-name pruning: a free name strictly inside a link can only be absent (or an insecure delegation)
+    let allowed: Vec<Vec<usize>> = rel
+        .iter()
+        .map(|n| {
+            let h = &hashes[n];
+            (0..menu.len())
+                .filter(|&i| match &menu[i] {
+                    None => true,
+                    // RFC 4592 §4.2/§4.4: NS / DNAME at a wildcard name are not considered
+                    Some(ts) if n[0] == b"*" && (ts.contains(&T_NS) || ts.contains(&T_DNAME)) => false,
+                    Some(ts) => {
+                        let ts: BTreeSet<u16> = ts.iter().copied().collect();
+                        links.iter().all(|l| !inside(&l.owner, &l.next, h) || (l.opt_out && insecure_deleg(&ts)))
+                    }
+                })
+                .collect()
+        })
+        .collect();
+    let mut idx = vec![0usize; rel.len()];
+    let mut n_consistent = 0usize;
+    // the apex, when no record fixes its types: the usual apex types, with and without QTYPE
+    let apex_default: BTreeSet<u16> = [T_SOA, T_NS, T_RRSIG, T_NSEC3PARAM].into_iter().collect();
+    let mut apex_with_q = apex_default.clone();
+    apex_with_q.insert(c.qtype);
+    let apex_variants: Vec<BTreeSet<u16>> = if forced.contains_key(&apex) || c.qtype == T_DS || apex_default.contains(&c.qtype) {
+        vec![apex_default.clone()]
+    } else {
+        vec![apex_default.clone(), apex_with_q]
+    };
+    let mut apex_i = 0usize;
+    'outer: loop {
+        // build the candidate zone view
+        let mut z: Zone = forced.clone();
+        z.entry(apex.clone()).or_insert_with(|| apex_variants[apex_i].clone());
+        let mut absent: BTreeSet<&Lbls> = BTreeSet::new();
+        let mut ents: Vec<&Lbls> = vec![];
+        for (i, n) in rel.iter().enumerate() {
+            match &menu[allowed[i][idx[i]]] {
+                None => {
+                    absent.insert(n);
+                }
+                Some(ts) => {
+                    if ts.is_empty() {
+                        ents.push(n);
+                    }
+                    z.insert(n.clone(), ts.iter().copied().collect());
+                }
+            }
+        }
+        let mut ok = true;
+        // empty-non-terminal closure
+        let names: Vec<Lbls> = z.keys().cloned().collect();
+        for n in &names {
+            let mut k = n.len();
+            while k > apex.len() + 1 {
+                k -= 1;
+                let p = suffix(n, k);
+                if absent.contains(&p) {
+                    ok = false;
+                    break;
+                }
+                z.entry(p).or_default();
+            }
+            if !ok {
+                break;
+            }
+        }
+        if ok {
+            // a chosen empty non-terminal needs a descendant; nothing lives strictly below a cut
+            for e in &ents {
+                if !z.keys().any(|m| m.len() > e.len() && suffix(m, e.len()) == **e) {
+                    ok = false;
+                }
+            }
+            for (n, ts) in &z {
+                if n.len() > apex.len() && is_cut(ts) && z.keys().any(|m| m.len() > n.len() && suffix(m, n.len()) == *n) {
+                    ok = false;
+                }
+            }
+        }
+        if ok && consistent(&z, &links, &hashes) {
+            n_consistent += 1;
+            if !claim_holds(c, &z, &apex, &q) {
+                return Sem::Falsified(describe(&z), z);
+            }
+        }
+        // odometer
+        let mut i = 0;
+        loop {
+            if i == rel.len() {
+                apex_i += 1;
+                if apex_i < apex_variants.len() {
+                    break;
+                }
+                break 'outer;
+            }
+            idx[i] += 1;
+            if idx[i] < allowed[i].len() {
+                break;
+            }
+            idx[i] = 0;
+            i += 1;
+        }
+    }
+    if n_consistent == 0 { Sem::NoVerdict("no-consistent-zone-in-universe") } else { Sem::Holds(n_consistent) }
+}
+
+// ------------------------------------------------------------------ finding classes (from the input)
+//
+// A reference port of `verify_nsec3` with one switch per proposed repair (repo-patches/C09-*.diff);
+// with all switches off it is the code as it is.  It is used ONLY to attribute an oracle failure to a
+// finding class ("the first single repair that turns this Secure into something else") — never for
+// the oracle's verdict.  The Lean model has the same switches (`Nsec3.Fixes`, `Nsec3.classOf`) and
+// prints the same class token, so the two classifications are compared on every case.
+
+#[derive(Clone, Copy, Default, Debug)]
+pub struct Fixes {
+    pub apex: bool,
+    pub wrap: bool,
+    pub optout: bool,
+    pub deleg: bool,
+    pub wild: bool,
+}
+
+/// the code as it is now: /repo e7e2ac8 (apex), cd83193 (wild), 6960cfe (deleg) applied;
+/// the wrap-around comparison and the opt-out handling are unchanged (open findings)
+pub const CURRENT: Fixes = Fixes { apex: true, wrap: false, optout: false, deleg: true, wild: true };
+
+/// open finding classes: the repair (on top of `CURRENT`) that flips the verdict
+pub const CLASSES: [(&str, Fixes); 2] = [
+    ("wraparound-nsec3-covers-every-hash", Fixes { apex: true, wrap: true, optout: false, deleg: true, wild: true }),
+    ("optout-next-closer-accepted-as-secure", Fixes { apex: true, wrap: false, optout: true, deleg: true, wild: true }),
+];
+const ALL_FIXED: Fixes = Fixes { apex: true, wrap: true, optout: true, deleg: true, wild: true };
+
+fn lcmp(a: &[u8], b: &[u8]) -> std::cmp::Ordering {
+    a.iter().map(|x| x.to_ascii_lowercase()).cmp(b.iter().map(|x| x.to_ascii_lowercase()))
+}
+
+struct RefCx<'a> {
+    fx: Fixes,
+    c: &'a Case,
+    pairs: Vec<(Vec<u8>, &'a RecIn)>,
+    salt: &'a [u8],
+    iterations: u16,
+}
+
+#[derive(Clone)]
+struct RInfo {
+    name: Name,
+    hash: Vec<u8>,
+    label: Vec<u8>,
+}
+
+impl<'a> RefCx<'a> {
+    fn info(&self, n: Name) -> RInfo {
+        let hash = nsec3_hash(self.salt, &n, self.iterations);
+        let label = b32(&hash);
+        RInfo { name: n, hash, label }
+    }
+    fn find_matching(&self, label: &[u8]) -> Option<&(Vec<u8>, &'a RecIn)> {
+        self.pairs.iter().find(|p| lcmp(&p.0, label).is_eq())
+    }
+    fn find_covering(&self, th: &[u8], tl: &[u8]) -> Option<&(Vec<u8>, &'a RecIn)> {
+        self.pairs.iter().find(|p| {
+            let nl = b32(&p.1.next);
+            if nl.is_empty() || nl.len() > 63 {
+                return false;
+            }
+            if lcmp(&p.0, tl).is_eq() {
+                return false;
+            }
+            if lcmp(&p.0, &nl).is_lt() {
+                lcmp(&p.0, tl).is_lt() && th < &p.1.next[..]
+            } else if self.fx.wrap {
+                lcmp(&p.0, tl).is_lt() || th < &p.1.next[..]
+            } else {
+                lcmp(&p.0, tl).is_gt() || th > &p.1.next[..]
+            }
+        })
+    }
+    fn candidates(&self) -> Vec<RInfo> {
+        let Some(soa) = &self.c.soa else { return vec![] };
+        if !soa.zone_of(&self.c.q) {
+            return vec![];
+        }
+        let mut out = vec![];
+        let mut cur = self.c.q.clone();
+        loop {
+            out.push(self.info(cur.clone()));
+            if &cur == soa || cur.iter().next().is_none() {
+                break;
+            }
+            cur = cur.base_name();
+        }
+        out
+    }
+    /// (closest encloser + its record, next closer cover)
+    #[allow(clippy::type_complexity)]
+    fn ce_proof(&self) -> (Option<(RInfo, &(Vec<u8>, &'a RecIn))>, Option<&(Vec<u8>, &'a RecIn)>) {
+        let cands = self.candidates();
+        let Some(m) = cands.iter().find_map(|c| self.find_matching(&c.label)) else { return (None, None) };
+        let Some(i) = (1..cands.len()).find(|i| lcmp(&cands[*i].label, &m.0).is_eq()) else { return (None, None) };
+        let nc = &cands[i - 1];
+        (Some((cands[i].clone(), m)), self.find_covering(&nc.hash, &nc.label))
+    }
+    #[allow(clippy::type_complexity)]
+    fn ce_proof_wild(&self, matching: bool) -> (Option<(RInfo, &(Vec<u8>, &'a RecIn))>, Option<&(Vec<u8>, &'a RecIn)>, Option<&(Vec<u8>, &'a RecIn)>) {
+        let (ce, nc) = self.ce_proof();
+        let Some((ci, _)) = &ce else { return (ce, nc, None) };
+        let Ok(w) = ci.name.prepend_label("*") else { return (ce, nc, None) };
+        let wi = self.info(w);
+        let wr = if matching { self.find_matching(&wi.label) } else { self.find_covering(&wi.hash, &wi.label) };
+        (ce, nc, wr)
+    }
+}
+
+fn owner_label(r: &RecIn) -> Vec<u8> {
+    r.owner.iter().next().map(lower).unwrap_or_default()
+}
+
+fn deleg_ns(r: &RecIn) -> bool {
+    r.types.contains(&T_NS) && !r.types.contains(&T_SOA)
+}
+fn deleg_rec(r: &RecIn) -> bool {
+    deleg_ns(r) || r.types.contains(&T_DNAME)
+}
+
+pub fn ref_verify(fx: Fixes, c: &Case) -> &'static str {
+    let mut pairs = vec![];
+    for r in &c.recs {
+        let Some(l) = r.owner.iter().next() else { return "bogus" };
+        if let Some(s) = &c.soa {
+            if &r.owner.base_name() != s {
+                return "bogus";
+            }
+        }
+        pairs.push((l.to_vec(), r));
+    }
+    let Some(first) = c.recs.first() else { return "bogus" };
+    if c.recs.iter().any(|r| r.salt != first.salt || r.iterations != first.iterations) {
+        return "bogus";
+    }
+    if first.iterations > c.hard {
+        return "bogus";
+    }
+    if first.iterations > c.soft {
+        return "insecure";
+    }
+    let cx = RefCx { fx, c, pairs, salt: &first.salt, iterations: first.iterations };
+    let qi = cx.info(c.q.clone());
+    let parent_is_soa = c.soa.as_ref().map(|s| &c.q.base_name() == s).unwrap_or(false);
+    match c.rcode {
+        3 => {
+            if cx.pairs.iter().any(|p| lcmp(&p.0, &qi.label).is_eq()) {
+                return "bogus";
+            }
+            match cx.ce_proof_wild(false) {
+                (Some((_, cr)), Some(ncr), Some(_)) => {
+                    if fx.deleg && deleg_rec(cr.1) {
+                        "bogus"
+                    } else if fx.optout && ncr.1.opt_out {
+                        "insecure"
+                    } else {
+                        "secure"
+                    }
+                }
+                (None, Some(_), Some(_)) if parent_is_soa => "secure",
+                _ => "bogus",
+            }
+        }
+        0 => {
+            let wild_exp = fx.wild && c.wl.map(|k| k < c.q.num_labels()).unwrap_or(false);
+            if !wild_exp {
+                if let Some(r) = cx.find_matching(&qi.label) {
+                    return if r.1.types.contains(&c.qtype) || r.1.types.contains(&T_CNAME) {
+                        "bogus"
+                    } else if fx.deleg && c.qtype != T_DS && deleg_ns(r.1) {
+                        "bogus"
+                    } else {
+                        "secure"
+                    };
+                }
+                if c.qtype == T_DS && cx.find_covering(&qi.hash, &qi.label).map(|x| x.1.opt_out).unwrap_or(false) {
+                    return "secure";
+                }
+            }
+            match c.wl {
+                Some(k) => {
+                    if c.q.num_labels() <= k {
+                        return "bogus";
+                    }
+                    let all: Vec<&[u8]> = c.q.iter().collect();
+                    let take = (k as usize + 1).min(all.len());
+                    let Ok(ncn) = Name::from_labels(all[all.len() - take..].iter().copied()) else { return "bogus" };
+                    let ni = cx.info(ncn);
+                    match cx.find_covering(&ni.hash, &ni.label) {
+                        Some(ncr) => {
+                            if fx.optout && ncr.1.opt_out { "insecure" } else { "secure" }
+                        }
+                        None => "bogus",
+                    }
+                }
+                None => match cx.ce_proof_wild(true) {
+                    (Some((_, cr)), Some(ncr), Some(w)) => {
+                        if !w.1.types.contains(&c.qtype) && !w.1.types.contains(&T_CNAME) {
+                            if fx.deleg && deleg_rec(cr.1) {
+                                "bogus"
+                            } else if fx.optout && ncr.1.opt_out {
+                                "insecure"
+                            } else {
+                                "secure"
+                            }
+                        } else {
+                            "bogus"
+                        }
+                    }
+                    (None, Some(_), Some(_)) if parent_is_soa => "secure",
+                    (None, None, None) if !fx.apex && c.soa.as_ref() == Some(&c.q) => "secure",
+                    _ => "bogus",
+                },
+            }
+        }
+        _ => "bogus",
+    }
+}
+
+/// class token of a case (mirrors `Nsec3.classOf`)
+pub fn class_of(c: &Case) -> String {
+    if ref_verify(CURRENT, c) != "secure" {
+        return "-".into();
+    }
+    for (name, fx) in CLASSES {
+        if ref_verify(fx, c) != "secure" {
+            return name.into();
+        }
+    }
+    // only both open repairs together flip it: attributed to the first
+    if ref_verify(ALL_FIXED, c) != "secure" { CLASSES[0].0.into() } else { "-".into() }
+}
+
+// ------------------------------------------------------------------ exec
+
+pub struct Outcome {
+    pub proof: String,
+    pub idx: Option<usize>,
+}
+
+/// Runs one case on the implementation, evaluates the oracle, records it (when `record` or when it is
+/// interesting: Secure or an oracle failure).
+pub fn run_case(c: &Case, rec: &mut Recorder, record: bool, tag: &str) -> Outcome {
+    let r = catch(|| call_impl(c));
+    let model_side = !c.recs.is_empty()
+        && c.q.is_fqdn()
+        && c.soa.as_ref().map(|s| s.is_fqdn() && !s.is_root()).unwrap_or(true)
+        && c.recs.iter().all(|r| r.owner.is_fqdn());
+    let mut fails: Vec<(String, String)> = vec![];
+    let mut cls = "-".to_string();
+    let proof = match &r {
+        Ok(p) => proof_str(*p).to_string(),
+        Err(_) => "panic".to_string(),
+    };
+    rec.stat(&format!("{tag}.verdict.{proof}"));
+    if proof == "secure" && model_side {
+        cls = class_of(c);
+    }
+    if let Ok(p) = &r {
+        let p = *p;
+        // iteration clauses (for every input)
+        if c.recs.iter().any(|r| r.iterations > c.hard) && p != Proof::Bogus {
+            fails.push((format!("iterations above the hard limit {} gave {proof}, not Bogus", c.hard), String::new()));
+        }
+        if c.recs.iter().any(|r| r.iterations > c.soft) && p == Proof::Secure {
+            fails.push((format!("iterations above the soft limit {} gave Secure", c.soft), String::new()));
+        }
+        if p == Proof::Secure {
+            if let Some(f) = c.recs.first() {
+                if c.recs.iter().any(|r| r.salt != f.salt || r.iterations != f.iterations) {
+                    fails.push(("Secure although the NSEC3 records do not share salt/iterations".into(), String::new()));
+                }
+            }
+            if let Some(s) = &c.soa {
+                if c.recs.iter().any(|r| r.owner.num_labels() == 0 || lbls(&r.owner.base_name()) != lbls(s)) {
+                    fails.push(("Secure although an NSEC3 record is not directly under the SOA name".into(), String::new()));
+                }
+            }
+            if c.rcode != 0 && c.rcode != 3 {
+                fails.push((format!("Secure for response code {}", c.rcode), String::new()));
+            }
+            match semantic(c) {
+                Sem::NoVerdict(why) => rec.stat(&format!("oracle.secure.no-verdict.{why}")),
+                Sem::Holds(_) => rec.stat("oracle.secure.claim-holds-in-every-consistent-zone"),
+                Sem::Falsified(desc, _) => {
+                    // narrow class computed from the input: the first single repair that flips the verdict
+                    let class: &str = if cls == "-" { "" } else { &cls };
+                    rec.stat(&format!("oracle.secure.falsified.{}", if class.is_empty() { "unclassified" } else { class }));
+                    fails.push((
+                        format!(
+                            "accepted as Secure, but a zone consistent with the given NSEC3 records falsifies the claim (q={} type={} rcode={} wl={}): zone = {}",
+                            c.q, c.qtype, c.rcode, opt_tok(&c.wl), desc
+                        ),
+                        class.to_string(),
+                    ));
+                }
+            }
+        }
+    } else if !c.recs.is_empty() {
+        fails.push((format!("panic: {}", r.as_ref().err().unwrap()), String::new()));
+    }
+    // everything is evaluated; what is *recorded* (sent to the model, kept as replayable case): every
+    // case the caller asks for, every unattributed failure, and the first 1500 failures of each class
+    let mut interesting = false;
+    for (_, class) in &fails {
+        if class.is_empty() {
+            interesting = true;
+        } else {
+            let k = format!("{tag}.failures-recorded.{class}");
+            if rec.stats.get(&k).copied().unwrap_or(0) < 1500 {
+                rec.stat(&k);
+                interesting = true;
+            } else {
+                rec.stat(&format!("{tag}.failures-counted-not-recorded.{class}"));
+            }
+        }
+    }
+    if !(record || interesting) {
+        rec.stat(&format!("{tag}.evaluated-not-recorded"));
+        return Outcome { proof, idx: None };
+    }
+    let out = if c.recs.is_empty() {
+        "panic".to_string()
+    } else if !model_side {
+        rec.impl_only += 1;
+        "~".to_string()
+    } else {
+        format!("{proof} {cls}")
+    };
+    let idx = rec.case(format_case(c), out);
+    rec.stat(&format!("{tag}.rcode.{}", c.rcode));
+    rec.stat(&format!("{tag}.records.{}", c.recs.len().min(5)));
+    rec.stat(&format!("{tag}.qtype.{}", c.qtype));
+    rec.stat(&format!("{tag}.wl.{}", if c.wl.is_some() { "some" } else { "none" }));
+    if c.soa.is_none() {
+        rec.stat(&format!("{tag}.soa.none"));
+    }
+    if c.recs.iter().any(|r| r.opt_out) {
+        rec.stat(&format!("{tag}.optout"));
+    }
+    // non-trivial: the code got past the sanity checks into one of the validators with ≥1 record
+    if !c.recs.is_empty() && (c.rcode == 0 || c.rcode == 3) && c.recs.first().map(|f| f.iterations <= c.soft && f.iterations <= c.hard).unwrap_or(false) {
+        rec.nontrivial(idx);
+    }
+    for (what, class) in fails {
+        rec.fail(idx, what, &class);
+    }
+    Outcome { proof, idx: Some(idx) }
+}
+
+pub fn exec(line: &str, rec: &mut Recorder) {
+    let t: Vec<&str> = line.split_whitespace().collect();
+    match t.first() {
+        Some(&"v") => match parse_case(&t) {
+            Some(c) => {
+                run_case(&c, rec, true, "corpus");
+            }
+            None => rec.stat("skipped.unparsable-case"),
+        },
+        Some(&"srv") => {
+            if e2e::exec_srv(&t, rec).is_none() {
+                rec.stat("skipped.unparsable-case");
+            }
+        }
+        Some(&"b32") if t.len() == 2 => {
+            if let Some(x) = unhex(t[1]) {
+                rec.case(line.to_string(), hex(&b32(&x)));
+            }
+        }
+        _ => rec.stat("skipped.unparsable-case"),
+    }
+}
+
+// ------------------------------------------------------------------ zones and chains built by the harness
+
+#[derive(Clone, Debug)]
+pub struct ZoneSpec {
+    pub apex: Name,
+    /// existing names (apex included) with their types; empty non-terminals are added by `chain`
+    pub names: BTreeMap<Lbls, BTreeSet<u16>>,
+    pub salt: Vec<u8>,
+    pub iterations: u16,
+    pub opt_out: bool,
+}
+
+/// RFC 5155 §7.1 chain of the zone (names below a cut excluded, opt-out: insecure delegations dropped),
+/// as `RecIn`s in hash order.
+pub fn chain(z: &ZoneSpec) -> Vec<RecIn> {
+    let apex = lbls(&z.apex);
+    let mut names: BTreeMap<Lbls, BTreeSet<u16>> = BTreeMap::new();
+    for (n, ts) in &z.names {
+        // occluded by a cut above?
+        let occluded = (apex.len() + 1..n.len()).any(|k| z.names.get(&suffix(n, k)).map(is_cut).unwrap_or(false));
+        if occluded {
+            continue;
+        }
+        if z.opt_out && n.len() > apex.len() && insecure_deleg(ts) {
+            continue;
+        }
+        let mut ts = ts.clone();
+        if !(n.len() > apex.len() && is_deleg(&ts) && !ts.contains(&T_DS)) && !ts.is_empty() {
+            ts.insert(T_RRSIG);
+        }
+        names.insert(n.clone(), ts);
+    }
+    let keys: Vec<Lbls> = names.keys().cloned().collect();
+    for n in keys {
+        let mut k = n.len();
+        while k > apex.len() + 1 {
+            k -= 1;
+            names.entry(suffix(&n, k)).or_default();
+        }
+    }
+    let mut hashed: Vec<(Vec<u8>, BTreeSet<u16>)> =
+        names.into_iter().map(|(n, ts)| (nsec3_hash(&z.salt, &name_of(&n), z.iterations), ts)).collect();
+    hashed.sort();
+    let n = hashed.len();
+    (0..n)
+        .map(|i| RecIn {
+            owner: z.apex.prepend_label(&b32(&hashed[i].0)[..]).unwrap(),
+            next: hashed[(i + 1) % n].0.clone(),
+            opt_out: z.opt_out,
+            iterations: z.iterations,
+            salt: z.salt.clone(),
+            types: hashed[i].1.iter().copied().collect(),
+        })
+        .collect()
+}
+
+fn apex_types() -> BTreeSet<u16> {
+    [T_SOA, T_NS, T_NSEC3PARAM].into_iter().collect()
+}
+
+fn rel_name(apex: &Name, labels: &[&[u8]]) -> Lbls {
+    let mut l: Lbls = labels.iter().map(|x| x.to_vec()).collect();
+    l.extend(lbls(apex));
+    l
+}
+
+const ALPHA: [&[u8]; 3] = [b"a", b"b", b"*"];
+
+fn all_rel(depth: usize) -> Vec<Vec<&'static [u8]>> {
+    let mut out: Vec<Vec<&'static [u8]>> = vec![];
+    let mut layer: Vec<Vec<&'static [u8]>> = vec![vec![]];
+    for _ in 0..depth {
+        let mut next = vec![];
+        for n in &layer {
+            for a in ALPHA {
+                let mut m = vec![a];
+                m.extend(n.iter().copied());
+                out.push(m.clone());
+                next.push(m);
+            }
+        }
+        layer = next;
+    }
+    out
+}
+
+fn gen_zone(r: &mut Rng) -> ZoneSpec {
+    let apex = Name::from_ascii(*r.pick(&["z.", "example.", "a.b."])).unwrap();
+    let mut names: BTreeMap<Lbls, BTreeSet<u16>> = BTreeMap::new();
+    names.insert(lbls(&apex), apex_types());
+    let pool = all_rel(3);
+    let k = r.range(0, 4);
+    for _ in 0..k {
+        let depth_bias = r.below(10);
+        let cand: Vec<&Vec<&[u8]>> = pool.iter().filter(|n| if depth_bias < 5 { n.len() == 1 } else if depth_bias < 8 { n.len() == 2 } else { n.len() == 3 }).collect();
+        let n = (*r.pick(&cand)).clone();
+        let ts: Vec<u16> = match r.below(10) {
+            0 | 1 => vec![T_NS],
+            2 => vec![T_NS, T_DS],
+            3 => vec![T_CNAME],
+            4 => vec![T_DNAME],
+            5 => vec![T_A, T_TXT],
+            6 => vec![T_TXT],
+            _ => vec![T_A],
+        };
+        names.insert(rel_name(&apex, &n), ts.into_iter().collect());
+    }
+    let salt = match r.below(4) {
+        0 => vec![],
+        1 => vec![0xaa, 0xbb, 0xcc, 0xdd],
+        2 => vec![r.byte()],
+        _ => r.bytes(2),
+    };
+    ZoneSpec { apex, names, salt, iterations: *r.pick(&[0u16, 0, 1, 2, 3, 5]), opt_out: r.chance(1, 3) }
+}
+
+/// the records of `chain` that match or cover the hash of one of the names the validator looks at
+fn relevant(chain: &[RecIn], z: &ZoneSpec, q: &Name) -> Vec<usize> {
+    let mut out = vec![];
+    for n in table_names(q) {
+        let h = nsec3_hash(&z.salt, &n, z.iterations);
+        let l = b32(&h);
+        for (i, r) in chain.iter().enumerate() {
+            let o = owner_label(r);
+            let oh = &chain[(i + chain.len() - 1) % chain.len()].next; // owner hash = previous next
+            if (o == l || inside(oh, &r.next, &h)) && !out.contains(&i) {
+                out.push(i);
+            }
+        }
+    }
+    out
+}
+
+fn gen_query(r: &mut Rng, z: &ZoneSpec) -> Name {
+    let pool = all_rel(3);
+    if r.chance(1, 12) {
+        return z.apex.clone();
+    }
+    if r.chance(1, 3) && z.names.len() > 1 {
+        // an existing name, a child of one, or a sibling
+        let keys: Vec<&Lbls> = z.names.keys().collect();
+        let mut n = (*r.pick(&keys)).clone();
+        match r.below(3) {
+            0 => {}
+            1 => n.insert(0, r.pick(&ALPHA).to_vec()),
+            _ => {
+                if n.len() > lbls(&z.apex).len() {
+                    n[0] = r.pick(&ALPHA).to_vec();
+                }
+            }
+        }
+        return name_of(&n);
+    }
+    let n: &Vec<&[u8]> = r.pick(&pool);
+    name_of(&rel_name(&z.apex, n))
+}
+
+fn mutate(r: &mut Rng, c: &mut Case) {
+    if c.recs.is_empty() {
+        return;
+    }
+    let i = r.below(c.recs.len() as u64) as usize;
+    match r.below(14) {
+        0 => {
+            // letter case of the owner label
+            let mut l: Lbls = c.recs[i].owner.iter().map(|x| x.to_vec()).collect();
+            let j = r.below(l[0].len() as u64) as usize;
+            l[0][j] = l[0][j].to_ascii_uppercase();
+            c.recs[i].owner = name_of(&l);
+        }
+        1 => {
+            if let Some(b) = c.recs[i].next.last_mut() {
+                *b = b.wrapping_add(1);
+            }
+        }
+        2 => {
+            c.recs[i].next.pop();
+        }
+        3 => c.recs[i].next.push(r.byte()),
+        4 => c.recs[i].next = if r.chance(1, 2) { vec![] } else { r.bytes(40) },
+        5 => c.recs[i].opt_out = !c.recs[i].opt_out,
+        6 => c.recs[i].iterations = c.recs[i].iterations.wrapping_add(1),
+        7 => c.recs[i].salt.push(1),
+        8 => {
+            let l: Vec<u8> = c.recs[i].owner.iter().next().unwrap().to_vec();
+            c.recs[i].owner = Name::from_ascii("other.").unwrap().prepend_label(&l[..]).unwrap();
+        }
+        9 => c.soa = None,
+        10 => c.soa = Some(Name::from_ascii(*r.pick(&["other.", "z.", "a.z.", "example."])).unwrap()),
+        11 => {
+            if c.recs.len() > 1 {
+                let j = r.below(c.recs.len() as u64) as usize;
+                let t = c.recs[i].next.clone();
+                c.recs[i].next = c.recs[j].next.clone();
+                c.recs[j].next = t;
+            }
+        }
+        12 => {
+            // owner label := hash label of a name related to the query (a forged link)
+            let f = c.recs[0].clone();
+            let names = table_names(&c.q);
+            let n = r.pick(&names);
+            let base = c.recs[i].owner.base_name();
+            c.recs[i].owner = base.prepend_label(&b32(&nsec3_hash(&f.salt, n, f.iterations))[..]).unwrap();
+        }
+        _ => {
+            let t = *r.pick(&[T_A, T_NS, T_SOA, T_CNAME, T_DS, T_DNAME, T_TXT]);
+            if let Some(p) = c.recs[i].types.iter().position(|x| *x == t) {
+                c.recs[i].types.remove(p);
+            } else {
+                c.recs[i].types.push(t);
+                c.recs[i].types.sort();
+            }
+        }
+    }
+}
+
+fn gen_case(r: &mut Rng) -> Case {
+    let z = gen_zone(r);
+    let ch = chain(&z);
+    let q = gen_query(r, &z);
+    let rel = relevant(&ch, &z, &q);
+    let mut pick: Vec<usize> = vec![];
+    match r.below(10) {
+        0 | 1 | 2 | 3 => pick = rel.clone(),
+        4 | 5 => {
+            pick = rel.clone();
+            if !pick.is_empty() {
+                let i = r.below(pick.len() as u64) as usize;
+                pick.remove(i);
+            }
+        }
+        6 => {
+            pick = rel.clone();
+            pick.push(r.below(ch.len() as u64) as usize);
+        }
+        _ => {
+            for i in 0..ch.len() {
+                if r.chance(1, 2) {
+                    pick.push(i);
+                }
+            }
+        }
+    }
+    pick.dedup();
+    if pick.is_empty() {
+        pick.push(r.below(ch.len() as u64) as usize);
+    }
+    if r.chance(1, 3) {
+        // order is visible to `find`
+        let k = r.below(pick.len() as u64) as usize;
+        pick.rotate_left(k);
+    }
+    let recs: Vec<RecIn> = pick.iter().map(|i| ch[*i].clone()).collect();
+    let (soft, hard) = *r.pick(&[(100u16, 500u16), (100, 500), (100, 500), (0, 0), (1, 2), (2, 4), (0, 65535), (5, 3), (3, 3)]);
+    let mut c = Case {
+        q,
+        qtype: *r.pick(&[T_A, T_A, T_DS, T_DS, T_TXT, T_NS, T_CNAME]),
+        soa: Some(z.apex.clone()),
+        rcode: *r.pick(&[0u16, 0, 0, 3, 3, 3, 2]),
+        wl: if r.chance(1, 5) { Some(r.range(0, 4) as u8) } else { None },
+        soft,
+        hard,
+        recs,
+    };
+    if c.wl.is_some() && r.chance(1, 2) {
+        c.soa = None;
+        c.rcode = 0;
+    }
+    if r.chance(1, 150) {
+        // a query name so long that `*.<closest encloser>` no longer fits into 255 octets
+        // (`prepend_label("*")` fails in closest_encloser_proof_with_wildcard)
+        let mut n = z.apex.clone();
+        let big = vec![b'x'; 63];
+        while let Ok(m) = n.prepend_label(&big[..]) {
+            n = m;
+        }
+        let rest = 255usize.saturating_sub(n.iter().map(|l| l.len() + 1).sum::<usize>() + 1);
+        if rest >= 2 {
+            if let Ok(m) = n.prepend_label(&vec![b'y'; rest - 1][..]) {
+                n = m;
+            }
+        }
+        c.q = n;
+        if r.chance(1, 2) {
+            // make the apex record match so that the closest encloser search succeeds somewhere
+            c.recs = ch.clone();
+        }
+    }
+    if r.chance(1, 4) {
+        mutate(r, &mut c);
+        if r.chance(1, 4) {
+            mutate(r, &mut c);
+        }
+    }
+    if r.chance(1, 40) {
+        let it = *r.pick(&[101u16, 500, 501, 65535]);
+        for x in c.recs.iter_mut() {
+            x.iterations = it;
+        }
+    }
+    c
+}
+
+// ------------------------------------------------------------------ exhaustive small-scope enumeration
+
+/// All zones with ≤ `max_owners` owner names drawn from `pool` (types from a small menu) × opt-out ×
+/// every query of the universe × qtype × response shape × every non-empty subset (≤ 3) of the chain.
+fn enumerate(o: &Opts, rec: &mut Recorder) {
+    let thorough = o.thorough();
+    let apex = Name::from_ascii("z.").unwrap();
+    let pool: Vec<Vec<&[u8]>> = all_rel(2).into_iter().chain([vec![&b"a"[..], b"a", b"a"], vec![b"*", b"b", b"a"], vec![b"b", b"*", b"a"]]).collect();
+    let menus: Vec<Vec<u16>> = vec![vec![T_A], vec![T_NS], vec![T_NS, T_DS], vec![T_CNAME]];
+    let queries: Vec<Name> = std::iter::once(apex.clone()).chain(all_rel(3).iter().map(|n| name_of(&rel_name(&apex, n)))).collect();
+    // zones: owner sets of size 0..=2
+    let mut zones: Vec<BTreeMap<Lbls, BTreeSet<u16>>> = vec![];
+    let base: BTreeMap<Lbls, BTreeSet<u16>> = [(lbls(&apex), apex_types())].into_iter().collect();
+    zones.push(base.clone());
+    for (i, a) in pool.iter().enumerate() {
+        for ma in &menus {
+            let mut z1 = base.clone();
+            z1.insert(rel_name(&apex, a), ma.iter().copied().collect());
+            zones.push(z1.clone());
+            for b_ in pool.iter().skip(i + 1) {
+                // second owner always plain data: keeps the count at pool² · |menu|
+                let mut z2 = z1.clone();
+                z2.insert(rel_name(&apex, b_), [T_A].into_iter().collect());
+                zones.push(z2);
+            }
+        }
+    }
+    let shapes: Vec<(u16, Option<u8>)> = vec![(0, None), (3, None), (0, Some(1)), (0, Some(2))];
+    let qtypes = [T_A, T_DS];
+    let params: Vec<(Vec<u8>, u16)> = vec![(vec![], 0), (vec![0xab], 1)];
+    let mut counter: u64 = 0;
+    let stride_z = if thorough { 2 } else { 37 };
+    let record_every: u64 = if thorough { 11 } else { 3 };
+    for (zi, names) in zones.iter().enumerate() {
+        if zi % stride_z != (o.seed as usize) % stride_z {
+            continue;
+        }
+        for opt_out in [false, true] {
+            let (salt, iterations) = params[(zi + opt_out as usize) % params.len()].clone();
+            let z = ZoneSpec { apex: apex.clone(), names: names.clone(), salt, iterations, opt_out };
+            let ch = chain(&z);
+            let n = ch.len();
+            // subsets of size 1..=3
+            let mut subsets: Vec<Vec<usize>> = vec![];
+            for a in 0..n {
+                subsets.push(vec![a]);
+                for b_ in a + 1..n {
+                    subsets.push(vec![a, b_]);
+                    for c_ in b_ + 1..n {
+                        subsets.push(vec![a, b_, c_]);
+                    }
+                }
+            }
+            for q in &queries {
+                for qtype in qtypes {
+                    for (rcode, wl) in &shapes {
+                        for s in &subsets {
+                            counter += 1;
+                            let c = Case {
+                                q: q.clone(),
+                                qtype,
+                                soa: if wl.is_some() { None } else { Some(apex.clone()) },
+                                rcode: *rcode,
+                                wl: *wl,
+                                soft: 100,
+                                hard: 500,
+                                recs: s.iter().map(|i| ch[*i].clone()).collect(),
+                            };
+                            run_case(&c, rec, counter % record_every == 0, "enum");
+                        }
+                    }
+                }
+            }
+        }
+    }
+    rec.stat_n("enum.cases-evaluated-on-implementation", counter);
+}
+
+/// iteration counts around the limits, for every verdict path
+fn limits_block(rec: &mut Recorder) {
+    let z = ZoneSpec {
+        apex: Name::from_ascii("z.").unwrap(),
+        names: [(lbls(&Name::from_ascii("z.").unwrap()), apex_types()), (lbls(&Name::from_ascii("a.z.").unwrap()), [T_A].into_iter().collect())].into_iter().collect(),
+        salt: vec![1],
+        iterations: 0,
+        opt_out: false,
+    };
+    for (soft, hard) in [(0u16, 0u16), (1, 2), (2, 4), (3, 3), (4, 2), (100, 500), (0, 65535)] {
+        for it in [0u16, 1, 2, 3, 4, 5, 100, 101, 500, 501, 65535] {
+            if it > 5 && (soft, hard) != (100, 500) {
+                continue;
+            }
+            let mut zz = z.clone();
+            zz.iterations = it;
+            let ch = if it <= 501 { chain(&zz) } else {
+                let mut c0 = chain(&z);
+                for r in c0.iter_mut() { r.iterations = it; }
+                c0
+            };
+            for (q, rcode) in [("a.z.", 0u16), ("b.z.", 3), ("z.", 0)] {
+                let c = Case { q: Name::from_ascii(q).unwrap(), qtype: T_TXT, soa: Some(z.apex.clone()), rcode, wl: None, soft, hard, recs: ch.clone() };
+                run_case(&c, rec, true, "limits");
+                // mixed iteration counts
+                let mut c2 = c.clone();
+                c2.recs[0].iterations = it.wrapping_add(1);
+                run_case(&c2, rec, true, "limits");
+            }
+        }
+    }
+}
+
+pub fn run(o: &Opts, rec: &mut Recorder) {
+    rec.rule = "cases = (query, SOA, rcode, answer-RRSIG labels, NSEC3 list, limits); zones over labels {a,b,*} depth ≤ 3 with real SHA-1 NSEC3 chains built by the harness, subsets/mixtures/mutations of the chain, plus responses of an NSEC3-signed InMemoryZoneHandler; non-trivial = ≥1 record, rcode NOERROR/NXDOMAIN and iterations within both limits (the validators proper are reached); distinct by case line".into();
+    for l in o.pre_lines.clone() {
+        exec(&l, rec);
+    }
+    rec.corpus_cases = rec.cases.len();
+    if o.replay_only {
+        return;
+    }
+    limits_block(rec);
+    let mut r = Rng::new(o.seed);
+    let n = o.n(6000, 60_000);
+    for _ in 0..n {
+        let c = gen_case(&mut r);
+        run_case(&c, rec, true, "gen");
+    }
+    // base32hex on its own (the model's encoder against the independent one here)
+    for _ in 0..o.n(300, 3000) {
+        let k = r.below(24) as usize;
+        let x = r.bytes(k);
+        rec.case(format!("b32 {}", hex(&x)), hex(&b32(&x)));
+    }
+    enumerate(o, rec);
+    e2e::run(o, rec);
+}
+
+// ------------------------------------------------------------------ end to end (server proofs)
+//
+// An NSEC3-signed `InMemoryZoneHandler` (real Ed25519 key) behind a `Catalog` answers every query
+// in/around the zone, twice: raw (DO set) and through the real validator `DnssecDnsHandle` whose trust
+// anchor is the zone key.  Completeness: the validator must accept (Ok) what the server sends —
+// negative and wildcard responses (the property's clause) and, recorded under its own class, plain
+// positive answers.  The NSEC3 records / SOA name / rcode / answers of each raw response are also handed
+// to `verify_nsec3` exactly as `verify_response` selects them and recorded as an ordinary `v` case, so
+// the model and the soundness oracle see the server's own proofs as well.
+mod e2e {
+    use std::net::SocketAddr;
+    use std::pin::Pin;
+    use std::sync::{Arc, Mutex};
+    use std::time::Duration;
+
+    use futures_util::stream::{self, Stream, StreamExt};
+    use hickory_net::dnssec::DnssecDnsHandle;
+    use hickory_net::runtime::{TokioRuntimeProvider, TokioTime};
+    use hickory_net::xfer::{DnsHandle, Protocol};
+    use hickory_net::NetError;
+    use hickory_proto::dnssec::crypto::Ed25519SigningKey;
+    use hickory_proto::dnssec::rdata::{DNSKEY, DS};
+    use hickory_proto::dnssec::{DigestType, DnssecSigner, SigningKey, TrustAnchors};
+    use hickory_proto::op::{DnsRequest, DnsRequestOptions, DnsResponse};
+    use hickory_proto::rr::rdata::{CNAME, NS, SOA, TXT};
+    use hickory_proto::serialize::binary::{BinEncodable, BinEncoder};
+    use hickory_server::dnssec::NxProofKind;
+    use hickory_server::server::{Request, RequestHandler, ResponseHandler, ResponseInfo};
+    use hickory_server::store::in_memory::InMemoryZoneHandler;
+    use hickory_server::zone_handler::{AxfrPolicy, Catalog, MessageResponse, ZoneType};
+
+    use super::*;
+
+    pub const CL_POSITIVE: &str = "positive-answer-rejected-because-of-attached-qname-nsec3";
+
+    #[derive(Clone, Default)]
+    struct Capture(Arc<Mutex<Vec<u8>>>);
+
+    #[async_trait::async_trait]
+    impl ResponseHandler for Capture {
+        async fn send_response<'a>(
+            &mut self,
+            response: MessageResponse<
+                '_,
+                'a,
+                impl Iterator<Item = &'a Record> + Send + 'a,
+                impl Iterator<Item = &'a Record> + Send + 'a,
+                impl Iterator<Item = &'a Record> + Send + 'a,
+                impl Iterator<Item = &'a Record> + Send + 'a,
+            >,
+        ) -> Result<ResponseInfo, NetError> {
+            let mut buf = self.0.lock().unwrap();
+            buf.clear();
+            let mut encoder = BinEncoder::new(&mut buf);
+            encoder.set_max_size(u16::MAX);
+            Ok(response.destructive_emit(&mut encoder)?)
+        }
+    }
+
+    pub struct Srv {
+        catalog: Arc<Catalog>,
+        anchors: Arc<TrustAnchors>,
+    }
+
+    /// in-process `DnsHandle`: one request → the catalog's response
+    #[derive(Clone)]
+    struct CatalogHandle(Arc<Catalog>);
+
+    impl DnsHandle for CatalogHandle {
+        type Response = Pin<Box<dyn Stream<Item = Result<DnsResponse, NetError>> + Send>>;
+        type Runtime = TokioRuntimeProvider;
+
+        fn send(&self, request: DnsRequest) -> Self::Response {
+            let catalog = self.0.clone();
+            Box::pin(stream::once(async move {
+                let bytes = request.to_bytes().map_err(|e| NetError::from(format!("encode: {e}")))?;
+                let addr: SocketAddr = "127.0.0.1:5353".parse().unwrap();
+                let req = Request::from_bytes(bytes, addr, Protocol::Tcp).map_err(|e| NetError::from(format!("request: {e}")))?;
+                let cap = Capture::default();
+                catalog.handle_request::<_, TokioTime>(&req, cap.clone()).await;
+                let buf = cap.0.lock().unwrap().clone();
+                DnsResponse::from_buffer(buf).map_err(|e| NetError::from(format!("decode: {e}")))
+            }))
+        }
+    }
+
+    fn rdata_for(t: u16) -> Option<RData> {
+        Some(match t {
+            T_A => RData::A(A::new(192, 0, 2, 1)),
+            T_TXT => RData::TXT(TXT::new(vec!["x".to_string()])),
+            T_NS => RData::NS(NS(Name::from_ascii("ns.elsewhere.").unwrap())),
+            T_CNAME => RData::CNAME(CNAME(Name::from_ascii("target.elsewhere.").unwrap())),
+            T_DS => RData::DNSSEC(DNSSECRData::DS(DS::new(1, Algorithm::ED25519, DigestType::SHA256, vec![7; 32]))),
+            _ => return None,
+        })
+    }
+
+    fn build(z: &ZoneSpec) -> Option<Srv> {
+        let mut h = InMemoryZoneHandler::<TokioRuntimeProvider>::empty(
+            z.apex.clone(),
+            ZoneType::Primary,
+            AxfrPolicy::Deny,
+            Some(NxProofKind::Nsec3 {
+                algorithm: Nsec3HashAlgorithm::SHA1,
+                salt: z.salt.clone().into(),
+                iterations: z.iterations,
+                opt_out: z.opt_out,
+            }),
+        );
+        let soa = SOA::new(Name::from_ascii("ns.elsewhere.").unwrap(), Name::from_ascii("h.elsewhere.").unwrap(), 0, 3600, 300, 3600000, 300);
+        h.upsert_mut(Record::from_rdata(z.apex.clone(), 300, RData::SOA(soa)), 0);
+        h.upsert_mut(Record::from_rdata(z.apex.clone(), 300, RData::NS(NS(Name::from_ascii("ns.elsewhere.").unwrap()))), 0);
+        let apex = lbls(&z.apex);
+        for (n, ts) in &z.names {
+            if *n == apex {
+                continue;
+            }
+            for t in ts {
+                if let Some(rd) = rdata_for(*t) {
+                    h.upsert_mut(Record::from_rdata(name_of(n), 300, rd), 0);
+                }
+            }
+        }
+        let key = Ed25519SigningKey::from_pkcs8(&Ed25519SigningKey::generate_pkcs8().ok()?).ok()?;
+        let public = key.to_public_key().ok()?;
+        let key: Box<dyn SigningKey> = Box::new(key);
+        h.add_zone_signing_key_mut(DnssecSigner::new(DNSKEY::from_key(&public), key, z.apex.clone(), Duration::from_secs(86400))).ok()?;
+        h.secure_zone_mut().ok()?;
+        let mut catalog = Catalog::new();
+        catalog.upsert(z.apex.clone().into(), vec![Arc::new(h)]);
+        let mut anchors = TrustAnchors::empty();
+        anchors.insert(&public);
+        Some(Srv { catalog: Arc::new(catalog), anchors: Arc::new(anchors) })
+    }
+
+    /// (raw response with DO set, verdict of the validator: Ok / error text)
+    fn ask(rt: &tokio::runtime::Runtime, srv: &Srv, q: &Name, t: u16) -> (Option<DnsResponse>, Result<DnsResponse, String>) {
+        rt.block_on(async {
+            let inner = CatalogHandle(srv.catalog.clone());
+            let mut opts = DnsRequestOptions::default();
+            opts.use_edns = true;
+            opts.edns_set_dnssec_ok = true;
+            opts.recursion_desired = false;
+            let query = Query::new(q.clone(), RecordType::from(t));
+            let raw = inner.send(DnsRequest::from_query(query.clone(), opts)).next().await.and_then(|r| r.ok());
+            let secure = DnssecDnsHandle::with_trust_anchor(inner, srv.anchors.clone());
+            let validated = match secure.send(DnsRequest::from_query(query, opts)).next().await {
+                Some(Ok(r)) => Ok(r),
+                Some(Err(e)) => Err(format!("{e}")),
+                None => Err("no result".into()),
+            };
+            (raw, validated)
+        })
+    }
+
+    pub fn run(o: &Opts, rec: &mut Recorder) {
+        let rt = tokio::runtime::Builder::new_current_thread().enable_all().build().unwrap();
+        let mut r = Rng::new(o.seed ^ 0xE2E);
+        let n_zones = o.n(6, 60);
+        let apex = Name::from_ascii("z.").unwrap();
+        let queries: Vec<Name> = std::iter::once(apex.clone()).chain(all_rel(3).iter().map(|n| name_of(&rel_name(&apex, n)))).collect();
+        for zi in 0..n_zones {
+            let mut z = gen_zone(&mut r);
+            z.apex = apex.clone();
+            // re-root the generated names under z.
+            let old: Vec<(Lbls, BTreeSet<u16>)> = z.names.iter().map(|(k, v)| (k.clone(), v.clone())).collect();
+            z.names.clear();
+            z.names.insert(lbls(&apex), apex_types());
+            for (n, ts) in old {
+                let depth = n.iter().take_while(|l| matches!(&l[..], b"a" | b"b" | b"*")).count().min(3);
+                if depth == 0 || ts.contains(&T_SOA) || ts.contains(&T_DNAME) {
+                    continue;
+                }
+                let mut m: Lbls = n[..depth].to_vec();
+                m.push(b"z".to_vec());
+                // RFC 4592 §4: no NS / DS / CNAME at wildcard names, nothing below a `*` label
+                let ts: BTreeSet<u16> = if m[0] == b"*" { [T_A].into_iter().collect() } else { ts };
+                if m[1..].iter().any(|l| l == b"*") {
+                    continue;
+                }
+                z.names.insert(m, ts);
+            }
+            if zi == 0 {
+                z.opt_out = false;
+            }
+            if zi == 1 {
+                z.opt_out = true;
+            }
+            let Some(srv) = build(&z) else {
+                rec.stat("e2e.zone-build-failed");
+                continue;
+            };
+            rec.stat("e2e.zones");
+            for q in &queries {
+                for t in [T_A, T_DS, T_TXT] {
+                    check_one(rec, &rt, &srv, &z, q, t);
+                }
+            }
+        }
+    }
+
+    /// `srv <apex> <optout> <iter> <salt> <n> {<name> <types>}*n <qname> <qtype>` — corpus / replay form
+    pub fn srv_line(z: &ZoneSpec, q: &Name, t: u16) -> String {
+        let mut s = format!("srv {} {} {} {} {}", name_tok(&z.apex), b(z.opt_out), z.iterations, hex(&z.salt), z.names.len());
+        for (n, ts) in &z.names {
+            s += &format!(" {} {}", name_tok(&name_of(n)), types_tok(&ts.iter().copied().collect::<Vec<_>>()));
+        }
+        s + &format!(" {} {}", name_tok(q), t)
+    }
+
+    pub fn exec_srv(t: &[&str], rec: &mut Recorder) -> Option<()> {
+        let apex = parse_name(t.get(1)?)?;
+        let opt_out = *t.get(2)? == "1";
+        let iterations: u16 = t.get(3)?.parse().ok()?;
+        let salt = unhex(t.get(4)?)?;
+        let n: usize = t.get(5)?.parse().ok()?;
+        let mut names = BTreeMap::new();
+        for i in 0..n {
+            let nm = parse_name(t.get(6 + 2 * i)?)?;
+            let ts: BTreeSet<u16> = if *t.get(7 + 2 * i)? == "-" { BTreeSet::new() } else { t[7 + 2 * i].split(',').map(|x| x.parse::<u16>().ok()).collect::<Option<_>>()? };
+            names.insert(lbls(&nm), ts);
+        }
+        let q = parse_name(t.get(6 + 2 * n)?)?;
+        let qt: u16 = t.get(7 + 2 * n)?.parse().ok()?;
+        let z = ZoneSpec { apex, names, salt, iterations, opt_out };
+        let rt = tokio::runtime::Builder::new_current_thread().enable_all().build().ok()?;
+        let srv = build(&z)?;
+        check_one(rec, &rt, &srv, &z, &q, qt);
+        Some(())
+    }
+
+    fn fail_srv(rec: &mut Recorder, z: &ZoneSpec, q: &Name, t: u16, what: String, class: &str) {
+        rec.impl_only += 1;
+        let idx = rec.case(srv_line(z, q, t), "~".into());
+        rec.fail(idx, what, class);
+    }
+
+    fn check_one(rec: &mut Recorder, rt: &tokio::runtime::Runtime, srv: &Srv, z: &ZoneSpec, q: &Name, t: u16) {
+        let (raw, validated) = ask(rt, srv, q, t);
+        let Some(resp) = raw else {
+            rec.stat("e2e.no-response");
+            return;
+        };
+        let nsec3s: Vec<RecIn> = resp
+            .authorities
+            .iter()
+            .filter_map(|rr| match &rr.data {
+                RData::DNSSEC(DNSSECRData::NSEC3(n)) => Some(RecIn {
+                    owner: rr.name.clone(),
+                    next: n.next_hashed_owner_name().to_vec(),
+                    opt_out: n.opt_out(),
+                    iterations: n.iterations(),
+                    salt: n.salt().to_vec(),
+                    types: {
+                        let mut v: Vec<u16> = n.type_bit_maps().map(u16::from).collect();
+                        v.sort();
+                        v
+                    },
+                }),
+                _ => None,
+            })
+            .collect();
+        let rcode: u16 = resp.metadata.response_code.into();
+        let n_answers = resp.answers.len();
+        let soa = resp.authorities.iter().find(|rr| rr.record_type() == RecordType::SOA).map(|rr| rr.name.clone());
+        let wl = resp.answers.iter().find_map(|rr| match &rr.data {
+            RData::DNSSEC(DNSSECRData::RRSIG(s)) => Some(s.input().num_labels),
+            _ => None,
+        });
+        let referral = soa.is_none() && n_answers == 0;
+        let plain_positive = n_answers > 0 && wl.map(|k| k >= q.num_labels()).unwrap_or(true);
+        let vtag = if validated.is_ok() { "accepted" } else { "rejected" };
+        // what RFC 1034 §4.3.2 / 4592 say the zone answers, computed from the zone data
+        let zone_view: Zone = spec_view(z);
+        let want = kind(&zone_view, &lbls(&z.apex), &lbls(q), t);
+
+        // ---- plain positive answers: outside "negative responses", but the validator must not reject them
+        if plain_positive {
+            rec.stat(&format!("e2e.validator.positive.{vtag}.nsec3-attached-{}", !nsec3s.is_empty()));
+            if let Err(e) = &validated {
+                fail_srv(
+                    rec,
+                    z,
+                    q,
+                    t,
+                    format!("completeness: DnssecDnsHandle rejects the server's plain positive answer for {q} type {t} ({} NSEC3 attached): {e} — zone {}", nsec3s.len(), describe_spec(z)),
+                    if nsec3s.is_empty() { "" } else { CL_POSITIVE },
+                );
+            }
+        }
+        if nsec3s.is_empty() {
+            rec.stat(&format!("e2e.response-without-nsec3.rcode{rcode}.answers{}", n_answers.min(1)));
+            if n_answers == 0 && (rcode == 0 || rcode == 3) && !resp.authorities.iter().any(|rr| rr.record_type() == RecordType::NS) {
+                fail_srv(rec, z, q, t, format!("server sent a negative response (rcode {rcode}) without any NSEC3 record"), "");
+            }
+            return;
+        }
+        let c = Case { q: q.clone(), qtype: t, soa, rcode, wl, soft: 100, hard: 500, recs: nsec3s };
+        // the real call shape: answers as sent by the server
+        let datas: Vec<NSEC3> = c.recs.iter().map(|r| NSEC3::new(Nsec3HashAlgorithm::SHA1, r.opt_out, r.iterations, r.salt.clone(), r.next.clone(), r.types.iter().map(|t| RecordType::from(*t)))).collect();
+        let pairs: Vec<(&Name, &NSEC3)> = c.recs.iter().map(|r| &r.owner).zip(datas.iter()).collect();
+        let direct = verify_nsec3(&Query::new(q.clone(), RecordType::from(t)), c.soa.as_ref(), resp.metadata.response_code, &resp.answers, &pairs, 100, 500);
+        let out = run_case(&c, rec, true, "e2e");
+        rec.stat(&format!("e2e.server-proof.{}", proof_str(direct)));
+        if proof_str(direct) != out.proof {
+            if let Some(idx) = out.idx {
+                rec.fail(idx, format!("verify_nsec3 on the server's answers ({}) differs from the case-line call ({})", proof_str(direct), out.proof), "");
+            }
+        }
+        if plain_positive {
+            rec.stat(&format!("e2e.positive-answer-carrying-nsec3.{}", proof_str(direct)));
+            return;
+        }
+        if referral {
+            rec.stat(&format!("e2e.referral-with-nsec3.validator-{vtag}"));
+            return;
+        }
+        let agrees = match want {
+            Kind::NxDomain => rcode == 3,
+            Kind::NoData | Kind::WildNoData => rcode == 0 && n_answers == 0,
+            Kind::WildAnswer(_) => rcode == 0 && n_answers > 0,
+            Kind::Answer | Kind::Referral => true,
+        };
+        if !agrees {
+            // the response itself is not the zone's answer (server lookup, C10): its proof cannot be
+            // expected to verify
+            rec.stat(&format!("e2e.server-response-contradicts-zone.want-{want:?}.rcode{rcode}"));
+            return;
+        }
+        // opt-out zones: an empty non-terminal that exists only because of insecure delegations has no
+        // NSEC3 (RFC 5155 §7.1); its NODATA cannot be proved Secure by anyone (erratum 3441)
+        let ql = b32(&nsec3_hash(&z.salt, q, z.iterations));
+        if z.opt_out && want == Kind::NoData && !c.recs.iter().any(|r| owner_label(r) == ql) {
+            rec.stat("e2e.optout-ent-without-nsec3.not-provable");
+            return;
+        }
+        rec.stat(&format!("e2e.validator.negative-or-wildcard.{vtag}"));
+        if direct != Proof::Secure {
+            fail_srv(
+                rec,
+                z,
+                q,
+                t,
+                format!("completeness: the server's own NSEC3 proof for {} type {} (rcode {}, {} answers) is not accepted by verify_nsec3: {} — zone {}", q, t, rcode, n_answers, proof_str(direct), describe_spec(z)),
+                "",
+            );
+        } else if let Err(e) = &validated {
+            fail_srv(
+                rec,
+                z,
+                q,
+                t,
+                format!("completeness: DnssecDnsHandle rejects the server's response for {} type {} (rcode {}, {} answers) although verify_nsec3 says Secure: {e} — zone {}", q, t, rcode, n_answers, describe_spec(z)),
+                "",
+            );
+        }
+    }
+
+    /// the zone data as a zone view (empty non-terminals added)
+    fn spec_view(z: &ZoneSpec) -> Zone {
+        let apex = lbls(&z.apex);
+        let mut v: Zone = z.names.clone();
+        for n in z.names.keys() {
+            let mut k = n.len();
+            while k > apex.len() + 1 {
+                k -= 1;
+                v.entry(suffix(n, k)).or_default();
+            }
+        }
+        v
+    }
+
+    fn describe_spec(z: &ZoneSpec) -> String {
+        format!("[optout={} iter={} salt={}] {}", z.opt_out, z.iterations, hex(&z.salt), describe(&z.names))
+    }
 }
